@@ -168,6 +168,15 @@ func (c *Conn) isClosed() bool {
 	return c.closed
 }
 
+// chunkedTransfer returns the write end of the pipe that feeds an open
+// chunked (BDAT) delivery, or nil. Close and reset change the field under the
+// lock, and Close may be called from another goroutine (Server.Close).
+func (c *Conn) chunkedTransfer() *io.PipeWriter {
+	c.locker.Lock()
+	defer c.locker.Unlock()
+	return c.bdatPipe
+}
+
 func (c *Conn) setSession(session Session) {
 	c.locker.Lock()
 	defer c.locker.Unlock()
@@ -240,7 +249,7 @@ func (c *Conn) handleGreet(enhanced bool, arg string) {
 	c.helo = domain
 
 	// RFC 5321: "An EHLO command MAY be issued by a client later in the session"
-	if c.session != nil {
+	if c.Session() != nil {
 		// RFC 5321: "... the SMTP server MUST clear all buffers
 		// and reset the state exactly as if a RSET command has been issued."
 		c.reset()
@@ -316,7 +325,7 @@ func (c *Conn) handleMail(arg string) {
 		c.writeResponse(502, EnhancedCode{5, 5, 1}, "Please introduce yourself first.")
 		return
 	}
-	if c.bdatPipe != nil {
+	if c.chunkedTransfer() != nil {
 		c.writeResponse(502, EnhancedCode{5, 5, 1}, "MAIL not allowed during message transfer")
 		return
 	}
@@ -670,7 +679,7 @@ func (c *Conn) handleRcpt(arg string) {
 		c.writeResponse(502, EnhancedCode{5, 5, 1}, "Missing MAIL FROM command.")
 		return
 	}
-	if c.bdatPipe != nil {
+	if c.chunkedTransfer() != nil {
 		c.writeResponse(502, EnhancedCode{5, 5, 1}, "RCPT not allowed during message transfer")
 		return
 	}
@@ -901,7 +910,9 @@ func (c *Conn) handleStartTLS() {
 		return
 	}
 
+	c.locker.Lock()
 	c.conn = tlsConn
+	c.locker.Unlock()
 	c.init()
 
 	// Reset all state and close the previous Session.
@@ -923,7 +934,7 @@ func (c *Conn) handleData(arg string) {
 		c.writeResponse(501, EnhancedCode{5, 5, 4}, "DATA command should not have any arguments")
 		return
 	}
-	if c.bdatPipe != nil {
+	if c.chunkedTransfer() != nil {
 		c.writeResponse(502, EnhancedCode{5, 5, 1}, "DATA not allowed during message transfer")
 		return
 	}
@@ -1013,9 +1024,13 @@ func (c *Conn) handleBdat(arg string) {
 		c.bdatStatus = c.createStatusCollector()
 	}
 
-	if c.bdatPipe == nil {
+	bdatPipe := c.chunkedTransfer()
+	if bdatPipe == nil {
 		var r *io.PipeReader
-		r, c.bdatPipe = io.Pipe()
+		r, bdatPipe = io.Pipe()
+		c.locker.Lock()
+		c.bdatPipe = bdatPipe
+		c.locker.Unlock()
 
 		c.dataResult = make(chan error, 1)
 
@@ -1066,7 +1081,7 @@ func (c *Conn) handleBdat(arg string) {
 	c.lineLimitReader.LineLimit = 0
 
 	chunk := io.LimitReader(c.text.R, int64(size))
-	copied, err := io.Copy(c.bdatPipe, chunk)
+	copied, err := io.Copy(bdatPipe, chunk)
 	if err == nil && copied < int64(size) {
 		// The connection ended inside the chunk.
 		err = io.ErrUnexpectedEOF
@@ -1115,7 +1130,7 @@ func (c *Conn) handleBdat(arg string) {
 	c.lineLimitReader.LineLimit = c.server.MaxLineLength
 
 	if last {
-		c.bdatPipe.Close()
+		bdatPipe.Close()
 
 		err := <-c.dataResult
 
